@@ -448,8 +448,25 @@ def check(run: Run) -> None:
                             "do not reach the interning identity of the switch node (definition tag, node schema, inputs, configuration): `f(k, cases, a=x, b=y)` and "
                             "`f(k, cases, b=x, a=y)` intern to ONE node and the second call silently gets the first call's binding", loc=fa.loc(call))
 
+    with run.obligation("C06.j", "K4", "captured outer ports are merged only when they are the SAME source: OuterCaptureCollector::index_for decides with "
+                        "WiringPortRef::same_source_as (whose per-kind field comparison C09.i checks) and with nothing weaker - a hand-written comparison that forgets the "
+                        "projection path gives two same-schema projections of one outer node ONE boundary slot, and the second consumer silently reads the first element"):
+        GWC = "src/hgraph/types/graph_wiring.cpp"
+        fa = R.fn(run, GWC, "OuterCaptureCollector::index_for")
+        cn = R.Canon()
+        rets = [s0 for s0 in fa.body.walk() if isinstance(s0, C.If) and any(isinstance(x, C.Return) for x in s0.then.walk()) and
+                any(isinstance(l, (C.For, C.RangeFor, C.While)) and any(y is s0 for y in l.body.walk()) for l in fa.body.walk())]
+        run.sites(len(rets), 1, "de-duplication test inside the capture scan")
+        for s0 in rets:
+            run.count(1, "C06.j")
+            c = cn(s0.cond).replace(" ", "")
+            if not re.fullmatch(r"[\w\[\].]+\.same_source_as\(outer\)|outer\.same_source_as\([\w\[\].]+\)", c):
+                run.finding("C06.j", "OuterCaptureCollector::index_for:dedup-not-by-same-source", f"an existing capture is re-used when `{c[:160]}` instead of "
+                            "`captured[i].same_source_as(outer)`: captures that differ in a field the hand-written test does not compare share one boundary input", loc=fa.loc(s0))
+
 
 VARIANTS = [
+    {"id": "j-seed-C06-8-capture-dedup-ignores-path", "expect": "C06.j", "edits": [{"file": "src/hgraph/types/graph_wiring.cpp", "find": "      if (captured[index].same_source_as(outer)) {", "replace": "      const WiringPortRef &entry = captured[index];\n      if (entry.is_peered_source() && entry.schema == outer.schema && entry.peered_node() == outer.peered_node() &&\n          entry.peered_output_kind() == outer.peered_output_kind()) {"}]},
     {"id": "i-revert-fix-keyword-names-not-in-identity", "expect": "C06.i", "edits": [{"file": "include/hgraph/lib/std/operators/impl/higher_order_impl.h", "find": "                    if (slot == i) { field_name += \":\" + name; }", "replace": "                    static_cast<void>(name); static_cast<void>(slot);"}]},
     {"id": "i-dispatch-drops-names", "expect": "C06.i", "edits": [{"file": "include/hgraph/lib/std/operators/impl/higher_order_impl.h", "find": "                Value{cases}, std::type_index(typeid(dispatch_switch_node_tag)), \"dispatch_\",\n                {named_slots.data(), named_slots.size()});", "replace": "                Value{cases}, std::type_index(typeid(dispatch_switch_node_tag)), \"dispatch_\");"}]},
     {"id": "h-ordered-reduce-uses-associative-tag", "expect": "C06.h", "edits": [{"file": "include/hgraph/lib/std/operators/impl/higher_order_impl.h", "find": "                std::type_index(typeid(reduce_ordered_tsd_node_tag)),", "replace": "                std::type_index(typeid(reduce_tsd_node_tag)),"}]},
